@@ -166,6 +166,24 @@ Theorem C19_real_decoders_conservative allow_ts ps ms :
   exists ps' outs, process ps ms = (ps', outs) /\ Forall2 (frame allow_ts) ms outs /\ Forall (Conservative allow_ts) ps'.
 Proof. exact (real_decoders_chain allow_ts ps ms). Qed.
 
+(* spelled out for a chain without the rewrite plugin — whatever state the plugins carry from earlier messages
+   (SOME/IP segment bookkeeping, CAN channel map, Muniic configuration and cache): every output message equals its
+   input message in index, reception time, ECU, TIMESTAMP, standard header (htyp, mcnt, len), payload and
+   lifecycle, and in the extended header when it had one *)
+Theorem C19_real_decoders_keep_all_but_text ps ms ps' outs :
+  Forall (real_decoder false) ps -> process ps ms = (ps', outs) ->
+  Forall2 (fun m o => m_index o = m_index m /\ m_rtime o = m_rtime m /\ m_ecu o = m_ecu m /\ m_ts o = m_ts m /\
+                      m_htyp o = m_htyp m /\ m_mcnt o = m_mcnt m /\ m_len o = m_len m /\
+                      m_payload o = m_payload m /\ m_lc o = m_lc m /\
+                      match m_ext m with Some e => m_ext o = Some e | None => True end) ms outs.
+Proof.
+  intros H E. destruct (real_decoders_chain false ps ms H) as (ps2 & outs2 & E2 & F & _).
+  rewrite E in E2. inversion E2; subst. clear E2 E.
+  induction F as [|m o ms outs Hf F IH]; constructor; [|exact IH].
+  apply frame_iff in Hf. destruct Hf as (A1 & A2 & A3 & A4 & A5 & A6 & A7 & A8 & A9 & A10).
+  repeat split; auto.
+Qed.
+
 (* the plugins the correspondence check runs (answers scripted from the observed real run) are instances *)
 Theorem C19_checked_decoders_are_instances chain : Forall (real_decoder true) (map dec_plugin chain).
 Proof.
@@ -381,3 +399,4 @@ Print Assumptions C19_real_decoder_conservative.
 Print Assumptions C19_real_decoders_conservative.
 Print Assumptions C19_checked_decoders_are_instances.
 Print Assumptions C19_decoders_nonvacuous.
+Print Assumptions C19_real_decoders_keep_all_but_text.
